@@ -22,7 +22,7 @@ func prefixIntrinsic(name string) intrinsic {
 	case strings.HasPrefix(name, "github.com/massnetorg/mass-core/logging."),
 		strings.HasPrefix(name, "(*github.com/massnetorg/mass-core/logging."),
 		strings.HasPrefix(name, "(github.com/massnetorg/mass-core/logging."):
-		return func(m *Machine, args []Value) Value { return nil }
+		return func(m *Machine, args []Value) Value { m.textSink("logging", args); return nil }
 	case strings.HasPrefix(name, "(*sync.Mutex)."), strings.HasPrefix(name, "(*sync.RWMutex)."):
 		if strings.HasSuffix(name, ".TryLock") || strings.HasSuffix(name, ".TryRLock") {
 			return func(m *Machine, args []Value) Value { return smt.True }
@@ -507,7 +507,12 @@ func init() {
 	})
 
 	// ----- errors / fmt -----
+	reg("errors.New", func(m *Machine, a []Value) Value {
+		m.textSink("errors.New", a)
+		return declined{}
+	})
 	reg("fmt.Errorf", func(m *Machine, a []Value) Value {
+		m.textSink("fmt.Errorf", a)
 		f := "error"
 		if s, ok := a[0].(StrVal); ok {
 			if c, ok := s.Concrete(); ok {
@@ -516,22 +521,22 @@ func init() {
 		}
 		return m.newError("fmt.Errorf: " + f)
 	})
-	reg("fmt.Sprintf", func(m *Machine, a []Value) Value { return m.sprintf(a) })
-	reg("fmt.Sprint", func(m *Machine, a []Value) Value { return Poison{"fmt.Sprint"} })
-	reg("fmt.Sprintln", func(m *Machine, a []Value) Value { return Poison{"fmt.Sprintln"} })
-	reg("fmt.Println", func(m *Machine, a []Value) Value { return TupleVal{m.mkInt(0), IfaceVal{}} })
-	reg("fmt.Printf", func(m *Machine, a []Value) Value { return TupleVal{m.mkInt(0), IfaceVal{}} })
-	reg("fmt.Print", func(m *Machine, a []Value) Value { return TupleVal{m.mkInt(0), IfaceVal{}} })
-	reg("fmt.Fprintf", func(m *Machine, a []Value) Value { return TupleVal{m.mkInt(0), IfaceVal{}} })
-	reg("fmt.Fprintln", func(m *Machine, a []Value) Value { return TupleVal{m.mkInt(0), IfaceVal{}} })
+	reg("fmt.Sprintf", func(m *Machine, a []Value) Value { m.textSink("fmt.Sprintf", a); return m.sprintf(a) })
+	reg("fmt.Sprint", func(m *Machine, a []Value) Value { m.textSink("fmt.Sprint", a); return Poison{"fmt.Sprint"} })
+	reg("fmt.Sprintln", func(m *Machine, a []Value) Value { m.textSink("fmt.Sprintln", a); return Poison{"fmt.Sprintln"} })
+	reg("fmt.Println", func(m *Machine, a []Value) Value { m.textSink("fmt.Println", a); return TupleVal{m.mkInt(0), IfaceVal{}} })
+	reg("fmt.Printf", func(m *Machine, a []Value) Value { m.textSink("fmt.Printf", a); return TupleVal{m.mkInt(0), IfaceVal{}} })
+	reg("fmt.Print", func(m *Machine, a []Value) Value { m.textSink("fmt.Print", a); return TupleVal{m.mkInt(0), IfaceVal{}} })
+	reg("fmt.Fprintf", func(m *Machine, a []Value) Value { m.textSink("fmt.Fprintf", a); return TupleVal{m.mkInt(0), IfaceVal{}} })
+	reg("fmt.Fprintln", func(m *Machine, a []Value) Value { m.textSink("fmt.Fprintln", a); return TupleVal{m.mkInt(0), IfaceVal{}} })
 	reg("google.golang.org/grpc/status.New", func(m *Machine, a []Value) Value {
 		return Ptr{Obj: m.newObj(Opaque{Kind: "grpc-status", Data: a[0]}, nil, "status")}
 	})
 	reg("(*google.golang.org/grpc/status.Status).Err", func(m *Machine, a []Value) Value {
 		return m.newError("grpc status error")
 	})
-	reg("google.golang.org/grpc/status.Errorf", func(m *Machine, a []Value) Value { return m.newError("grpc status error") })
-	reg("google.golang.org/grpc/status.Error", func(m *Machine, a []Value) Value { return m.newError("grpc status error") })
+	reg("google.golang.org/grpc/status.Errorf", func(m *Machine, a []Value) Value { m.textSink("status.Errorf", a[1:]); return m.newError("grpc status error") })
+	reg("google.golang.org/grpc/status.Error", func(m *Machine, a []Value) Value { m.textSink("status.Error", a[1:]); return m.newError("grpc status error") })
 
 	// ----- runtime-ish -----
 	reg("runtime/debug.FreeOSMemory", func(m *Machine, a []Value) Value { return nil })
